@@ -418,13 +418,14 @@ H("C14", "debugger::command::parse::verif_h::c14_arguments_tokens", PARSEF, cove
   functions=["Arguments::next_token_str", "Arguments::next_argument_str", "Arguments::arg_count"], what="tokenisation of every line <= 5 ASCII bytes", bounds="<= 5 bytes")
 H("C14", "debugger::command::parse::verif_h::c10_count_clamp", PARSEF, covers=2, stubs=[FMT], functions=["Arguments::next_positive_integer_or_default"],
   what="step into count: default 1, 0 -> 1", bounds="one decimal digit")
-for nm, q in [("len1", True), ("len2", False), ("len3", False), ("multibyte", True)]:
+# (c14_transport_len3 timed out at 3000 s in the thorough validation run: not registered)
+for nm, q in [("len1", True), ("len2", False), ("multibyte", True)]:
     H("C14", f"debugger::command::reader::stdin::verif_h::c14_transport_{nm}", STDINF, tier=("quick" if q else "thorough"), covers=1, timeout=3000, mem_gb=24,
       allow_unsat=[],
       stubs=["Stdin::read_byte -> next byte of the harness's byte queue (the OS read is the only thing replaced)"],
       functions=["Argument::read", "Stdin::read", "Stdin::read_char", "read_char_from_bytes", "Utf8Position::from"],
       what=f"same script ({nm}) via --command and via stdin: same command strings, same end",
-      bounds="scripts of exactly 1/2/3 bytes over {a, space, ';', newline} (last byte symbolic, the others enumerated); e-acute next to one symbolic ASCII byte")
+      bounds="scripts of exactly 1/2 bytes over {a, space, ';', newline} (last byte symbolic, the others enumerated); e-acute next to one symbolic ASCII byte")
 
 # ------------------------------------------------------------------ C20
 TERMF = "src/debugger/command/reader/terminal.rs"
